@@ -1,5 +1,6 @@
 import Tmv.Drv.Core
 import Tmv.Model.Cons
+import Tmv.Model.VoteSetCommit
 /-! Line-protocol driver for the consensus node model (C02; reused by C01/C03). -/
 namespace Tmv.Drv.C02
 open Tmv Tmv.Cons
@@ -114,10 +115,26 @@ def showHV (ids : Nat) (h : HVS) : String :=
   ",".intercalate (rounds.filterMap fun r =>
     (h.getRound r).map fun rvs => s!"{r}:P{showVS ids rvs.prevotes}:C{showVS ids rvs.precommits}")
 
+def showFlag : SigFlag → String
+  | .absent => "A" | .nil => "N" | .commit => "C"
+
+/-- what `MakeCommit` of the round's precommits yields, with the canonical vote of every slot -/
+def showCommit (c : Cfg) (s : NodeState) (r : Int) : String :=
+  match s.votes.precommits r with
+  | none => "nocommit"
+  | some vs =>
+    match vs.makeCommit c.n with
+    | some (some b, flags) =>
+      let slots := (List.range c.n).map fun i => match alookup vs.votes i with
+        | none => "-" | some x => showBid x
+      s!"commit r={r} b={b} bucket={vs.blockSum (some b)} sigs={String.join (flags.map showFlag)} " ++
+        s!"votes={",".intercalate slots} vc=ok"
+    | _ => "nocommit"
+
 def showState (c : Cfg) (ids : Nat) (s : NodeState) : String :=
   if s.halted then "halted" else
   match s.decided with
-  | some (b, r) => s!"decided {b}@{r}"
+  | some (b, r) => s!"decided {b}@{r} {showCommit c s r}"
   | none =>
     let prop := match s.proposal with
       | none => "-"
@@ -134,6 +151,11 @@ def step (st : St) (toks : List String) : St × String :=
     match parseCfg rest with
     | some (c, ids) => ({ cfg := some c, ids := ids, s := .init, shown := 0 }, "ok")
     | none => (st, "bad-op")
+  | "makecommit" :: rest =>
+    match st.cfg, (kv rest "r").bind String.toNat? with
+    | some c, some r =>
+      if st.s.halted ∨ st.s.decided.isSome then (st, "nocommit") else (st, showCommit c st.s (r : Int))
+    | _, _ => (st, "bad-op")
   | _ =>
     match st.cfg, parseInput toks with
     | some c, some i =>
